@@ -81,10 +81,10 @@ func runC08(cfg *config, res *monitor.Result) {
 				return
 			}
 			if measure {
-				limit := uint64(256*len(b) + 64<<10) // linear with a generous constant, see wl-wire/total.go
+				limit := uint64(256*len(b) + 256<<10) // linear with a generous constant, see wl-wire/total.go (span accounting noise)
 				if alloc > limit {
 					min := alloc
-					for i := 0; i < 2; i++ {
+					for i := 0; i < 4; i++ {
 						d2 := t.pkg.New(t.md.FullName()).(fastMsg)
 						b0 := meter.read()
 						_ = monitor.Try(func() { _ = d2.Unmarshal(b) })
